@@ -109,10 +109,11 @@ def E9():
           "insts": [{"name": "b", "ref": ["work", "Y2"]}, {"name": "c", "ref": ["work", "Z2"]},
                     {"name": "d", "ref": ["ly", "Y"]}, {"name": "e", "ref": ["lz", "Z"]}],
           "nets": [{"name": "n", "bits": [[["P", "p", 0], ["I", "b", "p", 0], ["I", "c", "p", 0], ["I", "d", "p", 0], ["I", "e", "p", 0]]]}]}
-    T = {"name": "top", "ports": [port("i", 1, "in"), port("q", 2, "in")],
+    T = {"name": "top", "ports": [port("i", 1, "in"), port("q", 2, "in"), port("r", 2, "in")],
          "insts": [{"name": "x", "ref": ["work", "X2"]}],
          "nets": [{"name": "w", "bits": [[["P", "i", 0], ["I", "x", "p", 0]]]},
-                  {"name": "2x", "bits": [[["P", "q", 0]], [["P", "q", 1]]]}]}
+                  {"name": "2x", "bits": [[["P", "q", 0]], [["P", "q", 1]]]},
+                  {"name": "_y", "bits": [[["P", "r", 0]], [["P", "r", 1]]]}]}   # identifier &_y_<i>_
     return {"name": "e9", "top": ["work", "top"], "top_name": "top",
             "libs": [{"name": "ly", "defs": [y]}, {"name": "lz", "defs": [z]}, {"name": "work", "defs": [y2, z2, x2, T]}]}
 
